@@ -34,6 +34,8 @@ def main():
                                "C02 map iteration in Go's random order")
         ok &= expect_violation(scratch, "MC_Engine", engine_cfg(cells=["cycle.err"]), "NoConflict",
                                "C04 shared cell written by the cycle tag")
+        ok &= expect_violation(scratch, "MC_Engine", engine_cfg(cells=["engine.cache"]), "NoConflict",
+                               "C04 unguarded template cache written by ParseTemplateAndCache")
         # --- binding side: a corrupted observation is rejected, an honest one accepted
         ctx = vcheck.Ctx("selftest", "quick", 1)
         ctx.lqh = vcheck.build_harness()
